@@ -219,15 +219,10 @@ class EH(progx.InlineHooks):
             return v
         if segs[-1] == "from_raw_parts" and len(args) == 2:
             a, n = args
-            if isinstance(a, tuple) and a[0] == "ptr8" and n == ("bytelen", a[1]):
+            if isinstance(a, tuple) and a[0] == "ptr8" and isinstance(n, int) and n == 4 * len(a[1][1]):
                 return ("bytes-of", a[1])
             return ("bad-raw-parts", a, n)
         return progx.InlineHooks.call(self, p, args, e)
-
-    def binary(self, op, a, b, e):
-        if op == "*" and ((isinstance(a, tuple) and a[0] == "len" and b == 4) or (isinstance(b, tuple) and b[0] == "len" and a == 4)):
-            return ("bytelen", (a if isinstance(a, tuple) else b)[1])
-        return progx.InlineHooks.binary(self, op, a, b, e)
 
     def cast(self, v, ty, e):
         if isinstance(v, tuple) and v[0] == "ptr" and ty.replace(" ", "") == "*constu8":
@@ -235,38 +230,45 @@ class EH(progx.InlineHooks):
         return progx.InlineHooks.cast(self, v, ty, e)
 
     def mcall(self, recv, m, args, e, ev):
-        if recv == ("sym", "BINARY") and m == "as_ref" and not args:
-            return ("asref", "BINARY")
-        if isinstance(recv, tuple) and recv[0] == "asref":
-            if m == "len":
-                return ("len", recv)
-            if m == "as_ptr":
-                return ("ptr", recv)
-            if m in ("as_ref", "borrow"):
-                return recv
+        if isinstance(recv, tuple) and recv and recv[0] == "list" and m == "as_ptr" and not args:
+            return ("ptr", recv)
         if isinstance(recv, tuple) and recv[0] == "parser" and m == "parse" and not args:
             self.parsed.append(recv)
             return self.outcome
         return progx.InlineHooks.mcall(self, recv, m, args, e, ev)
 
 
+def _entry_inputs(name):
+    """the caller's buffer: word / byte sequences of several lengths (shorter than a header, a header, more; for bytes also lengths that
+    are no multiple of four), with unknown non-zero elements, and the same with the last one or two elements zero"""
+    lens = (0, 1, 4, 5, 6, 7) if name == "parse_words" else (0, 1, 3, 4, 19, 20, 21, 24)
+    unit = "w" if name == "parse_words" else "b"
+    for n in lens:
+        for zeros in (0, 1, 2):
+            if zeros > n:
+                continue
+            yield "%d %s, the last %d zero" % (n, "words" if unit == "w" else "bytes", zeros), [(unit, i) for i in range(n - zeros)] + [0] * zeros
+
+
 def parse_entry_problem(ctx, name):
     f = ctx.rspirv.fn(PAR, name)
     ps = [q[0] for q in f["sig"]["params"]]
-    want_bytes = ("asref", "BINARY") if name == "parse_bytes" else ("bytes-of", ("asref", "BINARY"))
-    for outcome in (("err", ("sym", "STATE")), ("ok", UNIT)):
-        h = EH(ctx, outcome)
-        ev = progx.make(h, name)
-        try:
-            r = ev.run(f, {ps[0]: ("sym", "BINARY"), ps[1]: ("sym", "CONSUMER")})
-        except SPanic as x:
-            return "panics: %s" % x
-        if len(h.parsed) != 1:
-            return "runs %d parses" % len(h.parsed)
-        if h.parsed[0][1] != want_bytes or h.parsed[0][2] != ("sym", "CONSUMER"):
-            return "the parser is built on %s / %s, not on the caller's binary and consumer" % (h.parsed[0][1], h.parsed[0][2])
-        if r != outcome:
-            return "returns %s when the parse yields %s" % (short(r), short(outcome))
+    for what, items in _entry_inputs(name):
+        binary = ("list", list(items))
+        want_bytes = binary if name == "parse_bytes" else ("bytes-of", binary)
+        for outcome in (("err", ("sym", "STATE")), ("ok", UNIT)):
+            h = EH(ctx, outcome)
+            ev = progx.make(h, name)
+            try:
+                r = ev.run(f, {ps[0]: binary, ps[1]: ("sym", "CONSUMER")})
+            except SPanic as x:
+                return "on %s: panics: %s" % (what, x)
+            if len(h.parsed) != 1:
+                return "on %s: runs %d parses%s" % (what, len(h.parsed), " and returns %s" % short(r) if not h.parsed else "")
+            if h.parsed[0][1] != want_bytes or h.parsed[0][2] != ("sym", "CONSUMER"):
+                return "on %s: the parser is built on %s / %s, not on the caller's whole buffer and consumer" % (what, short(h.parsed[0][1]), short(h.parsed[0][2]))
+            if r != outcome:
+                return "on %s: returns %s when the parse yields %s" % (what, short(r), short(outcome))
     return None
 
 
